@@ -17,7 +17,7 @@ func init() {
 		RealParts:  []string{"Species.adjustFitness / countOffspring, Population.purgeZeroOffspringSpecies / giveBabiesToTheBest / deltaCoding / purgeOrganisms, both epoch executors"},
 		StubParts:  []string{"fitness assignment (seeded landscape with at least one positive value)", "goroutine choice in parallel worlds"},
 		Assumes:    []string{"the age adjustment is only constrained to be one uniform positive factor per species (1 or the age-significance option for species too young to be stagnant); penalty constants are not mirrored", "1e-9 relative tolerance; where a cumulative expectation lies within 1e-6 of an integer either rounding is accepted"},
-		ProbeNames: []string{"probe.multi_species_epoch", "probe.makeup_offspring", "probe.delta_coding", "probe.stolen_babies", "probe.zero_quota_species", "probe.stagnant_species_penalised", "probe.young_species_boost", "probe.culling_removed_parents"},
+		ProbeNames: []string{"probe.multi_species_epoch", "probe.options_changed_between_epochs", "probe.makeup_offspring", "probe.delta_coding", "probe.stolen_babies", "probe.zero_quota_species", "probe.stagnant_species_penalised", "probe.young_species_boost", "probe.culling_removed_parents"},
 	})
 	Register(&Scenario{
 		Prop: "C10", Run: scenarioC10, QuickRuns: 4800, ThoroughRuns: 120000, Level: "exploration",
@@ -265,6 +265,12 @@ func scenarioC09(c *RunCtx) {
 	c.Op("world: %s", w.Describe())
 	epochs := t.Range("epochs", 1, maxEpochs)
 	for e := 0; e < epochs; e++ {
+		if e > 0 && t.Chance("reconfigure", 1, 6) {
+			// the caller hands the next epoch a new Options object (same executor, same population)
+			what := w.Reconfigure()
+			c.Count("probe.options_changed_between_epochs")
+			c.Op("options changed before epoch %d: %s", e, what)
+		}
 		snap := StepEpoch(c, w, false, nil, c.LibSoft)
 		c.Steps++
 		c.Op("epoch %d: %d species, err=%v", e, len(snap.Species), snap.Err)
